@@ -152,10 +152,12 @@ def run_verus(repo_src, tag, rlimit=None, threads=16):
     res = None
     for attempt in range(4):
         res = _run_verus_once(repo_src, tag, rlimit, threads, force)
-        if res.status != "undecided" or not res.compile_errors:
+        # (a "vir error" aborts Verus before verification; its message may look like a verification failure)
+        errs = res.compile_errors or [dict(d, kind="compile") for d in res.diags]
+        if res.status != "undecided" or not errs:
             break
         new = {}
-        for d in res.compile_errors:
+        for d in errs:
             if d.get("kind") != "compile":
                 continue
             r = d.get("fn")
